@@ -114,6 +114,13 @@ func (r *Reader) Read(p []byte) (n int, err error) {
 
 	n, err = r.frame.Read(p)
 	if err != nil && err != io.EOF {
+		if err != ErrInvalidUTF8 && r.raw.N == 0 && !r.fragmented() && r.CheckUTF8 && !r.utf8.Valid() {
+			// The source failed while handing over the last bytes of a text
+			// message that does not end on a character boundary. Helpers such
+			// as io.ReadFull drop an error that comes with the bytes that fill
+			// their buffer, so the verdict on the text must not depend on it.
+			return r.utf8.Accepted(), ErrInvalidUTF8
+		}
 		return n, err
 	}
 	if err == nil && r.raw.N != 0 {
